@@ -3,8 +3,8 @@
 -/
 import BumpProof.Lemmas.MemFresh
 
-namespace Arena.Ex
-open Arena Rs
+namespace Arena.Mem.Ex
+open Arena Arena.Mem Rs
 
 def cfgUp : Cfg :=
   { up := true, minAlign0 := 1, ga := true, claimable := false, deallocates := true,
@@ -61,6 +61,6 @@ theorem stUpR_fresh : HeadFresh stUpR := by
   obtain ⟨⟨rfl, rfl⟩, _⟩ := h
   simp only [shapeOf, stUpR, stUp, List.map_cons, List.map_nil, List.mem_singleton] at hx
   subst hx
-  simp [Chunk.shape, chunkUp]
+  simp [Chunk.memShape, chunkUp]
 
-end Arena.Ex
+end Arena.Mem.Ex
